@@ -17,7 +17,8 @@ RULE = ("unit expressions are ASTs of the grammar E := F (('*'|'/') F)*, F := A 
         "under a drawn working-unit configuration (random seed, 'SI', or one of the non-over-determined named choices). "
         "Non-trivial: precedence/identity - the expression has >= 2 operators of different precedence or a parenthesised "
         "sub-expression raised to a power; invariance - the two expressions differ and >= 2 distinct configurations; "
-        "named - a chosen unit is not the SI base/derived unit; lammps_dims - entry is a composite expression or not None.")
+        "named - a chosen unit is not an SI unit (also the seed='SI' and integer-seed cases); lammps_dims - a judged entry "
+        "(style other than lj, key present); atheris - a campaign that ran.")
 ASSUMPTIONS = ["numericalunits assigns dimensionally consistent values to its names for every seed (its values are the leaves "
                "of my evaluator; my dimension table was verified against it by regression)",
                "Python float arithmetic and float(str) define the meaning of numeric literals",
